@@ -17,8 +17,14 @@
 //                                             evaluator returns exactly the proxy's answer
 //   preload                     = reload 1|0
 //   evo …                       (oracle only, not sent to the model)
+//   session …                   (oracle only) two REAL src_search::run sessions sharing a serialization
+//                               file: session 1 (as-is validation) fills and saves the cache, session 2
+//                               (dss or hold-out, constructed by src_search::validation_strategy) loads it;
+//                               after every generation of session 2 the fitness search::run reports for the
+//                               best individual (it went through the proxy) is compared with the bare
+//                               evaluator on the training set of that moment
 //
-// usage: c04_callsite <seed> <scenarios> <evolutions>
+// usage: c04_callsite <seed> <scenarios> <evolutions> [<sessions> <scratch dir>]
 #include "common/verif.h"
 
 #include "kernel/vita.h"
@@ -90,6 +96,17 @@ std::string make_csv(verif::splitmix &rng, unsigned nex)
     csv << a * x * x + b * x + 1.0 << ", " << x << '\n';
   }
   return csv.str();
+}
+
+// hold-out strategy with the training evaluator when the constructor takes one (it does since
+// `fix: holdout_validation::init clears the cached training evaluator`), as src_search builds it
+template<class V>
+std::unique_ptr<V> make_holdout(src_problem &p, cached_evaluator *e)
+{
+  if constexpr (std::is_constructible_v<V, src_problem &, cached_evaluator *>)
+    return std::make_unique<V>(p, e);
+  else
+    return std::make_unique<V>(p);
 }
 
 template<class E>
@@ -193,7 +210,10 @@ void scenario(verif::splitmix &rng, unsigned sc, const char *eva_name)
   }
   else
   {
-    holdout_validation vs(prob);
+    // constructed as src_search::validation_strategy(validator_id::holdout) constructs it
+    // (tools/translate_cache.py extracts the argument list and Gen.lean records it)
+    auto vsp(make_holdout<holdout_validation>(prob, proxy_tr.get()));
+    holdout_validation &vs(*vsp);
     for (unsigned r(0); r < runs; ++r)
     {
       vs.init(r); step(3, r, "holdout_validation::init");
@@ -253,6 +273,65 @@ void evolution_scenario(verif::splitmix &rng, unsigned sc)
             << " wrong=" << wrong << " | "
             << (wrong ? "BAD proxy-differs-from-direct-evaluation first after " + first : std::string("ok")) << "\n";
 }
+
+// Two sessions of the real src_search::run around one serialization file.
+void session_scenario(verif::splitmix &rng, unsigned sc, const std::string &dir)
+{
+  using E = mae_evaluator<i_mep>;
+  const unsigned nex(unsigned(rng.between(24, 60)));
+  const std::string csv(make_csv(rng, nex));
+  const std::string file(dir + "/c04_session_" + std::to_string(sc) + ".cache");
+  const unsigned code_length(unsigned(rng.between(2, 4)));
+  const unsigned bits(unsigned(rng.between(8, 12)));
+  const bool use_dss(rng.chance(0.5));
+  const unsigned gap(unsigned(rng.between(2, 4))), perc(unsigned(rng.between(20, 60)));
+  const unsigned gens(unsigned(rng.between(4, 8)));
+  std::remove(file.c_str());
+
+  // ONE problem object for both sessions: the opcodes of the symbols (hence the signatures) are
+  // those of the process that created the symbols, exactly as for two program runs on one data file
+  std::istringstream training(csv);
+  src_problem prob(training);
+  prob.env.init();
+  prob.env.mep.code_length = code_length;
+  prob.env.mep.patch_length = 1;
+  prob.env.individuals = 40;
+  prob.env.layers = 1;
+  prob.env.generations = gens;
+  prob.env.cache_size = bits;
+  prob.env.misc.serialization_file = file;
+  prob.insert<real::add>();
+  prob.insert<real::sub>();
+  prob.insert<real::mul>();
+
+  {
+    src_search<i_mep, std_es> s(prob);
+    s.evaluator(evaluator_id::mae);
+    s.run(1);       // as-is validation: the cache saved by search::close() holds fitness on the whole set
+  }
+
+  unsigned long checked(0), wrong(0);
+  std::string first;
+  {
+    if (use_dss) prob.env.dss = gap; else prob.env.validation_percentage = perc;
+    src_search<i_mep, std_es> s(prob);
+    s.evaluator(evaluator_id::mae);
+    s.validation_strategy(use_dss ? validator_id::dss : validator_id::holdout);
+    auto &tr(prob.data(dataset_t::training));
+    s.after_generation([&](const population<i_mep> &, const summary<i_mep> &sum) {
+      E direct(tr);
+      ++checked;
+      if (to_words(direct(sum.best.solution)) != to_words(sum.best.score.fitness) && !wrong++)
+        first = "generation " + std::to_string(sum.gen) + " of src_search::run (training set of " + std::to_string(tr.size())
+                + " examples, " + std::to_string(nex) + " when the loaded cache was filled)";
+    });
+    s.run(unsigned(rng.between(1, 2)));
+  }
+  std::remove(file.c_str());
+  std::cout << "session " << sc << " strategy=" << (use_dss ? "dss" : "holdout") << " gap=" << gap << " perc=" << perc
+            << " code_length=" << code_length << " bits=" << bits << " checked=" << checked << " wrong=" << wrong << " | "
+            << (wrong ? "BAD proxy-differs-from-direct-evaluation first after " + first : std::string("ok")) << "\n";
+}
 }  // namespace
 
 int main(int argc, char **argv)
@@ -260,6 +339,8 @@ int main(int argc, char **argv)
   log::reporting_level = log::lOFF;
   const std::uint64_t seed(argc > 1 ? std::stoull(argv[1]) : 1);
   const unsigned n(argc > 2 ? std::stoul(argv[2]) : 10), ne(argc > 3 ? std::stoul(argv[3]) : 2);
+  const unsigned ns(argc > 5 ? std::stoul(argv[4]) : 0);
+  const std::string dir(argc > 5 ? argv[5] : ".");
   verif::splitmix rng(seed);
   for (unsigned sc(0); sc < n; ++sc)
   {
@@ -276,6 +357,11 @@ int main(int argc, char **argv)
   {
     vita::random::seed(unsigned(seed * 1000 + 500 + sc));
     evolution_scenario(rng, sc);
+  }
+  for (unsigned sc(0); sc < ns; ++sc)
+  {
+    vita::random::seed(unsigned(seed * 1000 + 700 + sc));
+    session_scenario(rng, sc, dir);
   }
   return 0;
 }
